@@ -20,8 +20,8 @@ EXPLANATION = ("(a) The real BAMOnlineMerger merges k fake BAM iterators whose r
 STUBS = ["pysam.AlignmentFile -> fake BAM with fetch() yielding its records in order", "src.gtf2db.os / open / json -> fakes with symbolic existence bits and mtimes",
          "the converter function -> stub that creates the database file (sets its existence bit and mtime)"]
 ASSUMPTIONS = ["each BAM file is coordinate-sorted", "modification times are integers (comparison for equality only)"]
-OUTSIDE = ["that gffutils builds identical databases from .gtf, .gtf.gz and with/without inference (gffutils/sqlite: C extension and I/O - not encodable)",
-           "GeneInfo extraction from a gffutils database", "gzipped reference handling (pyfaidx)"]
+OUTSIDE = ["bgzipped references (opened by pyfaidx directly)", "that gffutils builds identical databases from .gtf, .gtf.gz and with/without inference (gffutils/sqlite: C extension and I/O - not encodable)",
+           "GeneInfo extraction from a gffutils database"]
 
 
 def setup_symbolic():
@@ -182,6 +182,56 @@ def h_convert(g):
             gtf2db.open = old[1]
 
 
+def h_gz_reference(g):
+    """DatasetProcessor.__init__ with an ordinary-gzip reference (pyfaidx refuses it): the unpacked copy in the output
+    folder is rewritten from the archive on every run that is not a --resume of an existing copy, so a leftover copy of
+    another archive with the same name is never used"""
+    import src.dataset_processor as dp
+    ARCH, COPY = "/in/genome.fa.gz", "/out/genome.fa"
+    exists_copy = g.bool("unpacked_copy_exists")
+    resume = bool(g.bool("resume"))
+    mt = {ARCH: g.int("archive_mtime", 0), COPY: g.int("copy_mtime", 0), ARCH + ".fai": 0}
+    ex = {COPY: exists_copy, ARCH + ".fai": True, "/in": True}
+    written = []
+
+    class FOS(FakeOS):
+        W_OK = 2
+
+        def dirname(self, p): return _os.path.dirname(p)
+        def basename(self, p): return _os.path.basename(p)
+        def splitext(self, p): return _os.path.splitext(p)
+        def join(self, *a): return _os.path.join(*a)
+        def access(self, p, m): return True
+        def exists(self, p): return self._exists.get(p, False)
+
+    def fasta(path, indexname=None):
+        if path.endswith(".gz"):
+            raise dp.UnsupportedCompressionFormat("ordinary gzip")
+        return {"opened": path}
+    old = (dp.os, dp.Fasta, dp.__dict__.get("open"), dp.gzip, dp.shutil, dp.gffutils)
+    dp.os = FOS(ex, mt)
+    dp.Fasta = fasta
+    dp.open = lambda name, mode="r": FakeFile({}, name, mode)
+    dp.gzip = type("G", (), {"open": staticmethod(lambda name, mode="rt": "archive-content")})
+    dp.shutil = type("S", (), {"copyfileobj": staticmethod(lambda src, dst: written.append(dst.name))})
+    try:
+        args = type("A", (), {})()
+        args.genedb, args.needs_reference, args.reference, args.output, args.resume = None, True, ARCH, "/out", resume
+        args._cmd_line, args._version, args.keep_tmp = "x", "v", True
+        p_ = dp.DatasetProcessor.__new__(dp.DatasetProcessor)
+        call(g, p_.__init__, args)
+    finally:
+        dp.os, dp.Fasta, dp.gzip, dp.shutil, dp.gffutils = old[0], old[1], old[3], old[4], old[5]
+        if old[2] is None:
+            dp.__dict__.pop("open", None)
+        else:
+            dp.open = old[2]
+    g.check(IFF(len(written) == 1, NOT(AND(resume, exists_copy))),
+            "the unpacked reference is rewritten from the given archive unless this is a --resume with an existing copy",
+            detail={"rewritten": len(written), "resume": resume})
+    g.check(args.reference == COPY and p_.reference_record_dict == {"opened": COPY}, "the run continues with the unpacked copy")
+
+
 def instances(tier, seed):
     q = tier == "quick"
     A = "src.alignment_processor:"
@@ -192,6 +242,8 @@ def instances(tier, seed):
                             "%d records with symbolic positions, every partition over %d files" % (n, k), weight=k ** n * 5, budget_s=1200))
     out.append(Instance("cache_lookup", h_cache, ["src.gtf2db:find_converted_db", "src.gtf2db:compare_stored_gtf"],
                         "symbolic existence bits, current and recorded modification times, flags", weight=20))
+    out.append(Instance("gz_reference", h_gz_reference, ["src.dataset_processor:DatasetProcessor.__init__"],
+                        "symbolic existence / modification times of the unpacked copy, resume flag", weight=10))
     out.append(Instance("cache_update", h_convert, ["src.gtf2db:convert_db", "src.gtf2db:find_converted_db"],
                         "conversion -> reuse -> touched input -> other flag, symbolic modification times", weight=20))
     return out
